@@ -5,7 +5,13 @@
 //   o=...   = order of the insert_start calls (every player index at least once; default 0, 1, 2, ...).  A player listed more
 //             than once is RE-REGISTERED: guarded classes register it as exhausted (nullptr, sup) on all but its last
 //             occurrence and with its key on the last one; unguarded classes register its key every time.
-//   <extra> = decimal bit mask: 1 = init() is called twice in a row; 2 = guarded classes: after the run (no live player left)
+//   m=<n>,<n>,... (optional token after the sentinel, like o=) = MOVE POINTS: the points of the history are numbered 0 (before the
+//             first insert_start), 1.. (after each insert_start), then after init(), then after each delete_min_insert; at each
+//             listed point the tree is move-constructed into a fresh object, the old object is destroyed and the run continues with
+//             the new one (classes that are not move-constructible on this tree - see `lt_harness --traits` - ignore it)
+//   rk+ / rk- = ByRank: comparator owning heap state (ascending / descending); its destructor poisons and frees the state
+//   <extra> = decimal bit mask: 4 = the comparator handed to the constructor is a TEMPORARY copy that dies (destructor: state
+//             poisoned) before the tree is used - the tree must have copied it; 1 = init() is called twice in a row; 2 = guarded classes: after the run (no live player left)
 //             delete_min_insert(nullptr, true) + min_source() are called three more times (must not crash; results unspecified)
 //   class letter W (unstable unguarded classes only) = V, except that "beats the sentinel" means "is not greater than it" (as for
 //             the stable classes) instead of "is strictly less": the regime of a real minimum equivalent to the padding key
@@ -14,7 +20,7 @@
 //              multiway_merge_loser_tree_combined does)
 //   <elem>  = e1 | e8 | e16 | e17 | e24   ValueType of that many bytes (default e8); 1, 8, 16 bytes make the
 //             LoserTree / LoserTreeUnguarded switch pick the copy classes, 17 and 24 bytes the pointer classes
-//   <cmp>   = lt | gt | st+ | st- | df    KeyLess, KeyGreater, stateful comparator object (ascending / descending; a
+//   <cmp>   = lt | gt | rk+ | rk- | df    KeyLess, KeyGreater, stateful comparator object (ascending / descending; a
 //             default-constructed one is deliberately useless), df = the class's default template argument
 //             std::less<ValueType> and the constructor's default comparator argument
 //   <via>   = d | s | m                   class named directly / through the tlx::LoserTree<> or tlx::LoserTreeUnguarded<>
@@ -34,6 +40,7 @@
 #include <fstream>
 #include <functional>
 #include <iostream>
+#include <memory>
 #include <sstream>
 #include <string>
 #include <type_traits>
@@ -90,17 +97,20 @@ template <typename T>
 struct KeyGreater {
     bool operator()(const T& a, const T& b) const { return key_of(b) < key_of(a); }
 };
-//! comparator with state: direction and a call counter; a default-constructed one never says "less"
+//! comparator owning heap state: direction flag on the heap; copies are deep; the destructor poisons the state and frees it,
+//! so a tree that merely kept a reference / shallow copy of a dead comparator compares wrongly even without ASan
 template <typename T>
-struct Stateful {
-    int dir = 0;
-    long* calls = nullptr;
-    Stateful() = default;
-    Stateful(int d, long* c) : dir(d), calls(c) {}
+struct ByRank {
+    int* dir;
+    ByRank() : dir(new int(0)) {}
+    explicit ByRank(int d) : dir(new int(d)) {}
+    ByRank(const ByRank& o) : dir(new int(*o.dir)) {}
+    ByRank& operator=(const ByRank& o) { *dir = *o.dir; return *this; }
+    ~ByRank() { *dir = 0; delete dir; }
     bool operator()(const T& a, const T& b) const {
-        if (calls) ++*calls;
-        if (dir > 0) return key_of(a) < key_of(b);
-        if (dir < 0) return key_of(b) < key_of(a);
+        const int d = *dir;
+        if (d > 0) return key_of(a) < key_of(b);
+        if (d < 0) return key_of(b) < key_of(a);
         return false;
     }
 };
@@ -109,6 +119,29 @@ struct Stateful {
 static std::vector<size_t> g_order;
 //! <extra> bit mask of the current case
 static int g_extra = 0;
+//! move points of the current case
+static std::vector<size_t> g_moves;
+
+//! the tree under test lives on the heap so that it can be move-constructed into a fresh object at any point of the history
+template <typename LT>
+struct Holder {
+    std::unique_ptr<LT> p;
+    size_t step = 0;
+    explicit Holder(std::unique_ptr<LT> q) : p(std::move(q)) {}
+    LT* operator->() { return p.get(); }
+    //! a point of the history: move the tree if the case says so
+    void point() {
+        for (size_t m : g_moves) {
+            if (m != step) continue;
+            if constexpr (std::is_move_constructible<LT>::value) {
+                std::unique_ptr<LT> fresh(new LT(std::move(*p)));
+                p = std::move(fresh);                     // destroys the moved-from tree
+            }
+            break;
+        }
+        ++step;
+    }
+};
 
 //! is position n of g_order the last registration of that player?
 static bool last_registration(size_t n) {
@@ -138,42 +171,46 @@ struct Feed {
 
 // ------------------------------------------------------------------------------------------------ caller loops
 template <typename LT, typename T>
-static void drive(LT& lt, const std::vector<std::vector<T> >& seqs, bool guarded, char store, std::string& out) {
+static void drive(Holder<LT>& lt, const std::vector<std::vector<T> >& seqs, bool guarded, char store, std::string& out) {
     using Source = typename LT::Source;
     const Source k = static_cast<Source>(seqs.size());
     std::vector<size_t> pos(k, 0);
     Feed<T> feed(store, seqs);
+    lt.point();
     for (size_t n = 0; n < g_order.size(); ++n) {
         const Source i = static_cast<Source>(g_order[n]);
         if (seqs[i].empty() || (guarded && !last_registration(n)))
-            lt.insert_start(nullptr, i, true);
+            lt->insert_start(nullptr, i, true);
         else {
-            lt.insert_start(feed.key(i, 0), i, false);
+            lt->insert_start(feed.key(i, 0), i, false);
             feed.done();
         }
+        lt.point();
     }
-    lt.init();
-    if (g_extra & 1) lt.init();
+    lt->init();
+    if (g_extra & 1) lt->init();
+    lt.point();
     for (;;) {
-        Source s = lt.min_source();
+        Source s = lt->min_source();
         if (!out.empty()) out += ' ';
         if (s == LT::invalid_) out += '-'; else out += std::to_string(s);
         if (s >= k || pos[s] >= seqs[s].size()) break;   // reported player has no current key
         ++pos[s];
         if (pos[s] < seqs[s].size()) {
-            lt.delete_min_insert(feed.key(s, pos[s]), false);
+            lt->delete_min_insert(feed.key(s, pos[s]), false);
             feed.done();
         }
         else if (guarded)
-            lt.delete_min_insert(nullptr, true);
+            lt->delete_min_insert(nullptr, true);
         else
             break;                                        // unguarded: a player must never run empty
+        lt.point();
     }
     if (guarded && (g_extra & 2)) {
         // more replace operations than there are keys: no live player is left, the answers are unspecified
         for (int n = 0; n < 3; ++n) {
-            lt.delete_min_insert(nullptr, true);
-            volatile Source s = lt.min_source();
+            lt->delete_min_insert(nullptr, true);
+            volatile Source s = lt->min_source();
             (void)s;
         }
     }
@@ -181,19 +218,22 @@ static void drive(LT& lt, const std::vector<std::vector<T> >& seqs, bool guarded
 
 // unguarded tree, arbitrary keys: stop as soon as no current key beats the sentinel
 template <typename LT, typename T, typename Cmp>
-static void drive_general(LT& lt, const std::vector<std::vector<T> >& seqs, const T& sentinel, const Cmp& less,
+static void drive_general(Holder<LT>& lt, const std::vector<std::vector<T> >& seqs, const T& sentinel, const Cmp& less,
                           bool stable, char store, std::string& out) {
     using Source = typename LT::Source;
     const Source k = static_cast<Source>(seqs.size());
     std::vector<size_t> pos(k, 0);
     Feed<T> feed(store, seqs);
+    lt.point();
     for (size_t n = 0; n < g_order.size(); ++n) {
         const Source i = static_cast<Source>(g_order[n]);
-        lt.insert_start(feed.key(i, 0), i, false);
+        lt->insert_start(feed.key(i, 0), i, false);
         feed.done();
+        lt.point();
     }
-    lt.init();
-    if (g_extra & 1) lt.init();
+    lt->init();
+    if (g_extra & 1) lt->init();
+    lt.point();
     for (;;) {
         bool any = false;
         for (Source i = 0; i < k; ++i) {
@@ -202,17 +242,18 @@ static void drive_general(LT& lt, const std::vector<std::vector<T> >& seqs, cons
             if (stable ? !less(sentinel, h) : less(h, sentinel)) any = true;
         }
         if (!any) break;
-        Source s = lt.min_source();
+        Source s = lt->min_source();
         if (!out.empty()) out += ' ';
         if (s == LT::invalid_) out += '-'; else out += std::to_string(s);
         if (s >= k || pos[s] >= seqs[s].size()) break;
         ++pos[s];
         if (pos[s] < seqs[s].size()) {
-            lt.delete_min_insert(feed.key(s, pos[s]), false);
+            lt->delete_min_insert(feed.key(s, pos[s]), false);
             feed.done();
         }
         else
             break;
+        lt.point();
     }
 }
 
@@ -242,18 +283,11 @@ static void run_guarded(const std::vector<std::vector<T> >& seqs, const Cmp& cmp
     const Flavor f = adjust<LT, T, Cmp>(f0);
     using Source = typename LT::Source;
     const Source k = static_cast<Source>(seqs.size());
-    if (f.via == 'm') {
-        if constexpr (std::is_move_constructible<LT>::value) {
-            LT lt0 = f.pass_cmp ? LT(k, cmp) : LT(k);
-            LT lt(std::move(lt0));
-            drive(lt, seqs, true, f.store, out);
-        } else {
-            out = "?not-movable";
-        }
-        return;
-    }
-    if (f.pass_cmp) { LT lt(k, cmp); drive(lt, seqs, true, f.store, out); }
-    else { LT lt(k); drive(lt, seqs, true, f.store, out); }
+    // (g_extra & 4): the constructor gets a temporary copy of the comparator; it is destroyed at the end of the statement
+    Holder<LT> lt(!f.pass_cmp ? std::unique_ptr<LT>(new LT(k))
+                  : (g_extra & 4) ? std::unique_ptr<LT>(new LT(k, Cmp(cmp)))
+                                  : std::unique_ptr<LT>(new LT(k, cmp)));
+    drive(lt, seqs, true, f.store, out);
 }
 
 template <typename LT, typename T, typename Cmp>
@@ -262,13 +296,13 @@ static void run_unguarded(const std::vector<std::vector<T> >& seqs, const T& sen
     const Flavor f = adjust<LT, T, Cmp>(f0);
     using Source = typename LT::Source;
     const Source k = static_cast<Source>(seqs.size());
-    if (f.pass_cmp) {
-        LT lt(k, sentinel, cmp);
-        if (f.mode == 'V' || f.mode == 'W') drive_general(lt, seqs, sentinel, cmp, f.stable || f.mode == 'W', f.store, out); else drive(lt, seqs, false, f.store, out);
-    } else {
-        LT lt(k, sentinel);
-        if (f.mode == 'V' || f.mode == 'W') drive_general(lt, seqs, sentinel, cmp, f.stable || f.mode == 'W', f.store, out); else drive(lt, seqs, false, f.store, out);
-    }
+    Holder<LT> lt(!f.pass_cmp ? std::unique_ptr<LT>(new LT(k, sentinel))
+                  : (g_extra & 4) ? std::unique_ptr<LT>(new LT(k, sentinel, Cmp(cmp)))
+                                  : std::unique_ptr<LT>(new LT(k, sentinel, cmp)));
+    if (f.mode == 'V' || f.mode == 'W')
+        drive_general(lt, seqs, sentinel, cmp, f.stable || f.mode == 'W', f.store, out);
+    else
+        drive(lt, seqs, false, f.store, out);
 }
 
 template <typename T, typename Cmp>
@@ -310,20 +344,34 @@ static void dispatch(bool P, const Flavor& f, const std::vector<std::vector<long
     }
 }
 
-template <typename T>
+// To keep the build time of this file in bounds not every comparator is instantiated with every element type: KeyLess and the
+// default std::less with all five element types, KeyGreater and ByRank with e8 (copy-sized) and e17 (pointer-sized).
+template <typename T, bool AllComparators>
 static void by_cmp(const std::string& cmp, bool P, Flavor f, const std::vector<std::vector<long> >& keys, long sent,
                    std::string& out) {
-    static long calls = 0;
     if (cmp == "lt") dispatch<T>(P, f, keys, sent, KeyLess<T>(), out);
-    else if (cmp == "gt") dispatch<T>(P, f, keys, sent, KeyGreater<T>(), out);
-    else if (cmp == "st+") dispatch<T>(P, f, keys, sent, Stateful<T>(+1, &calls), out);
-    else if (cmp == "st-") dispatch<T>(P, f, keys, sent, Stateful<T>(-1, &calls), out);
     else if (cmp == "df") { f.pass_cmp = false; dispatch<T>(P, f, keys, sent, std::less<T>(), out); }
-    else out = "?comparator";
+    else if (cmp != "gt" && cmp != "rk+" && cmp != "rk-" && cmp != "st+" && cmp != "st-") out = "?comparator";
+    else if constexpr (AllComparators) {
+        if (cmp == "gt") dispatch<T>(P, f, keys, sent, KeyGreater<T>(), out);
+        else if (cmp == "rk+" || cmp == "st+") dispatch<T>(P, f, keys, sent, ByRank<T>(+1), out);
+        else dispatch<T>(P, f, keys, sent, ByRank<T>(-1), out);
+    }
+    else out = "?comparator-not-instantiated-for-this-element-type";
 }
 
 int main(int argc, char** argv) {
     if (argc < 2) return 2;
+    if (std::string(argv[1]) == "--traits") {
+        // which classes can be move-constructed on this tree (the move points apply to those)
+        using L = KeyLess<E8>;
+        std::cout << "LoserTreeCopy=" << std::is_move_constructible<tlx::LoserTreeCopy<true, E8, L> >::value
+                  << " LoserTreePointer=" << std::is_move_constructible<tlx::LoserTreePointer<true, E8, L> >::value
+                  << " LoserTreeCopyUnguarded=" << std::is_move_constructible<tlx::LoserTreeCopyUnguarded<true, E8, L> >::value
+                  << " LoserTreePointerUnguarded=" << std::is_move_constructible<tlx::LoserTreePointerUnguarded<true, E8, L> >::value
+                  << std::endl;
+        return 0;
+    }
     std::ifstream in(argv[1]);
     std::string line;
     while (std::getline(in, line)) {
@@ -348,8 +396,14 @@ int main(int argc, char** argv) {
         const std::string store = parts.size() >= 5 ? parts[4] : "p";
         g_extra = parts.size() == 6 ? std::atoi(parts[5].c_str()) : 0;
         std::vector<std::vector<long> > keys;
-        std::vector<size_t> order;
+        std::vector<size_t> order, moves;
         while (ls >> tok) {
+            if (keys.empty() && tok.compare(0, 2, "m=") == 0) {
+                std::istringstream os(tok.substr(2));
+                std::string n;
+                while (std::getline(os, n, ',')) moves.push_back(static_cast<size_t>(std::atol(n.c_str())));
+                continue;
+            }
             if (keys.empty() && tok.compare(0, 2, "o=") == 0) {
                 std::istringstream os(tok.substr(2));
                 std::string n;
@@ -374,21 +428,23 @@ int main(int argc, char** argv) {
             if (!ok) { std::cout << "?order" << std::endl; continue; }
         }
         g_order = order;
+        g_moves = moves;
         std::string out;
         const bool P = vs[0] == 'P';
         Flavor f{ vs[1], vs[2] == 'S', true, via.empty() ? 'd' : via[0], store.empty() ? 'p' : store[0] };
         if (keys.empty() || (vs[0] != 'P' && vs[0] != 'C') || (f.mode != 'G' && f.mode != 'U' && f.mode != 'V' && f.mode != 'W') || (f.mode == 'W' && f.stable) ||
             (vs[2] != 'S' && vs[2] != 'N') || (f.via != 'd' && f.via != 's' && f.via != 'm') ||
-            (f.via == 'm' && f.mode != 'G') || (f.store != 'p' && f.store != 'l' && f.store != 't') ||
+             (f.store != 'p' && f.store != 'l' && f.store != 't') ||
             (f.store == 't' && P)) {
             std::cout << "?" << std::endl;
             continue;
         }
-        if (elem == "e1") by_cmp<E1>(cmp, P, f, keys, sent, out);
-        else if (elem == "e8") by_cmp<E8>(cmp, P, f, keys, sent, out);
-        else if (elem == "e16") by_cmp<E16>(cmp, P, f, keys, sent, out);
-        else if (elem == "e17") by_cmp<E17>(cmp, P, f, keys, sent, out);
-        else if (elem == "e24") by_cmp<E24>(cmp, P, f, keys, sent, out);
+        if (f.via == 'm') g_moves.push_back(0);          // "moved before use" = move point 0
+        if (elem == "e1") by_cmp<E1, false>(cmp, P, f, keys, sent, out);
+        else if (elem == "e8") by_cmp<E8, true>(cmp, P, f, keys, sent, out);
+        else if (elem == "e16") by_cmp<E16, false>(cmp, P, f, keys, sent, out);
+        else if (elem == "e17") by_cmp<E17, true>(cmp, P, f, keys, sent, out);
+        else if (elem == "e24") by_cmp<E24, false>(cmp, P, f, keys, sent, out);
         else out = "?element-type";
         std::cout << out << '\n';
     }
